@@ -76,7 +76,7 @@ def rand_bursts(rng: random.Random, n: int) -> list[list[int]]:
 class C01(CheckBase):
     pid = "C01"
     level = "fault_enumeration"
-    quick_cases = 320
+    quick_cases = 480
     thorough_cases = 4800
     stub = CheckBase.stub + ["for the helper-level runs: the connection object (recording stand-in for process_packet / report_fatal_error)"]
 
